@@ -21,6 +21,18 @@ CLAIMED = {
    'redirection, CSV and native functions are covered by other properties\' modules.',
    'TLA+ reference semantics evaluated by TLC; replay of TLC-exported programs and equivalent spellings on the real compiler+VM; '
    'TLC validation of recorded random-program executions'),
+ 'C11': ('DESIGN.md section 3 / C11',
+   'The input part of spec/AwkSem.tla specifies the operand walk (files, "-", empty operands, var=value assigned when reached, '
+   'ARGV/ARGC edited in BEGIN), the getline forms and what each one sets, range patterns, next/nextfile (also from inside '
+   'functions), exit in BEGIN/main/END and the final status. TLC evaluates ~1,850 programs (18 commands x patterns x 12 operand '
+   'lists; ranges x disturbing commands; BEGIN and END forms), asserts on the model that NR equals the number of records taken '
+   'from the main input, and exports the predicted per-step trace of NR FNR FILENAME $0 NF; the harness runs every program with '
+   'real files and operands. 300-4,000 random multi-rule programs recorded from the real interpreter are validated by TLC '
+   '(Trace_MainLoop).',
+   'Trusted: TLC, AwkSem.tla, the harness renderer. Default RS/FS only; command pipes, missing files and FILENAME during '
+   'standard input are not judged.',
+   'TLA+ reference semantics of the main loop evaluated by TLC; replay of exported programs with real files/operands; TLC '
+   'validation of recorded random executions'),
  'C06': ('DESIGN.md section 3 / C06',
    'TLC checks exhaustively (all operation histories up to depth 4-5 over a menu of ~60 operation instances) that the lazy '
    'record representation refines the abstract AWK record of spec/Record.tla; every history of <= 3 operations exported by '
